@@ -116,32 +116,102 @@ func cutSegments(wire []byte, cuts []int, every int) [][]byte {
 	return append(segs, rest)
 }
 
+// hangDeadline: how long the implementation gets for something that involves
+// no waiting at all (the scripted connection never blocks a Read while data is
+// left, never blocks a Write). Generous for a loaded machine; after two hangs
+// in one run the rest of the run does not wait a minute per case any more.
+var hangs int
+
+func hangDeadline() time.Duration {
+	if hangs >= 2 {
+		return 5 * time.Second
+	}
+	return 60 * time.Second
+}
+
+// guarded runs f (implementation code that must return without waiting for
+// anybody) and reports whether it did within the deadline. A call that does
+// not return is an observation; its goroutine is left behind.
+func guarded(f func()) (returned bool) {
+	done := make(chan struct{})
+	go func() {
+		defer close(done)
+		f()
+	}()
+	select {
+	case <-done:
+		return true
+	case <-time.After(hangDeadline()):
+		hangs++
+		return false
+	}
+}
+
 // ---- sending side on a capturing connection (levels conn and router) ---------
 
-func sendCaptured(items []sentItem) (wire []byte, sends []bool, crash string) {
+func sendCaptured(items []sentItem) (wire []byte, sends []bool, crash string, hung string) {
 	cap := newScriptConn(nil, true)
 	sc := network.VerifNewTCPConn(cap, ed25519)
-	defer func() {
-		if r := recover(); r != nil {
-			crash = fmt.Sprint("panic in Send: ", r)
-			wire = cap.wrote.Bytes()
+	var mu sync.Mutex
+	returned := guarded(func() {
+		defer func() {
+			if r := recover(); r != nil {
+				mu.Lock()
+				crash = fmt.Sprint("panic in Send: ", r)
+				mu.Unlock()
+			}
+		}()
+		for _, it := range items {
+			switch it.kind {
+			case "msg":
+				_, err := sc.Send(it.value)
+				mu.Lock()
+				sends = append(sends, err == nil)
+				mu.Unlock()
+			default:
+				cap.Write(it.bytes)
+			}
 		}
-	}()
-	for _, it := range items {
-		switch it.kind {
-		case "msg":
-			_, err := sc.Send(it.value)
-			sends = append(sends, err == nil)
-		default:
-			cap.Write(it.bytes)
-		}
+	})
+	mu.Lock()
+	defer mu.Unlock()
+	if !returned {
+		hung = "a Send on a connection that never blocks did not return"
 	}
-	return append([]byte{}, cap.wrote.Bytes()...), sends, ""
+	cap.mu.Lock()
+	wire = append([]byte{}, cap.wrote.Bytes()...)
+	cap.mu.Unlock()
+	return wire, append([]bool{}, sends...), crash, hung
 }
 
 // ---- level conn: TCPConn.Receive in a loop -----------------------------------
 
-func receiveConn(segs [][]byte, pl *pool) (o streamObs) {
+func receiveConn(segs [][]byte, pl *pool) streamObs {
+	var mu sync.Mutex
+	var o streamObs
+	returned := guarded(func() {
+		r := receiveConnLoop(segs, pl, &mu, &o)
+		mu.Lock()
+		r.evs, r.evsHuman, r.delivered = o.evs, o.evsHuman, o.delivered
+		o = r
+		mu.Unlock()
+	})
+	mu.Lock()
+	defer mu.Unlock()
+	if !returned {
+		o.hung = "a Receive on a connection that never blocks did not return"
+	}
+	out := o
+	out.evs = append([]string{}, o.evs...)
+	out.evsHuman = append([]string{}, o.evsHuman...)
+	out.delivered = append([]delivered{}, o.delivered...)
+	return out
+}
+
+// receiveConnLoop appends what it observes to shared (under mu) as it goes, so
+// that a call that never returns leaves the prefix behind; the returned value
+// carries the fields set at the end.
+func receiveConnLoop(segs [][]byte, pl *pool, mu *sync.Mutex, shared *streamObs) (o streamObs) {
 	sconn := newScriptConn(segs, true)
 	rc := network.VerifNewTCPConn(sconn, ed25519)
 	defer func() {
@@ -149,32 +219,37 @@ func receiveConn(segs [][]byte, pl *pool) (o streamObs) {
 			o.crash = fmt.Sprint("panic in Receive: ", r)
 		}
 	}()
+	add := func(ev, human string, d *delivered) {
+		mu.Lock()
+		shared.evs = append(shared.evs, ev)
+		shared.evsHuman = append(shared.evsHuman, human)
+		if d != nil {
+			shared.delivered = append(shared.delivered, *d)
+		}
+		mu.Unlock()
+	}
 	for i := 0; i < 1000000; i++ {
 		env, err := rc.Receive()
 		switch {
 		case err == nil && env != nil:
+			mu.Lock()
 			k := pl.valueIndex(env.Msg)
-			o.delivered = append(o.delivered, delivered{env.MsgType, env.Msg})
-			o.evs = append(o.evs, fmt.Sprintf("CMsg %d %d%%N", k, env.Size))
-			o.evsHuman = append(o.evsHuman, fmt.Sprintf("msg(%d bytes)", env.Size))
+			mu.Unlock()
+			add(fmt.Sprintf("CMsg %d %d%%N", k, env.Size), fmt.Sprintf("msg(%d bytes)", env.Size), &delivered{env.MsgType, env.Msg})
 		case env != nil:
-			o.evs = append(o.evs, fmt.Sprintf("CBad %d%%N", env.Size))
-			o.evsHuman = append(o.evsHuman, fmt.Sprintf("bad(%d bytes: %s)", env.Size, errClass(err)))
+			add(fmt.Sprintf("CBad %d%%N", env.Size), fmt.Sprintf("bad(%d bytes: %s)", env.Size, errClass(err)), nil)
 		case fatalClass(err):
-			o.evs = append(o.evs, "CEnd")
-			o.evsHuman = append(o.evsHuman, "end")
+			add("CEnd", "end", nil)
 			o.reads = sconn.reads
 			return o
 		case xerrors.Is(err, network.ErrTooBig):
-			o.evs = append(o.evs, "CTooBig")
-			o.evsHuman = append(o.evsHuman, "refused-without-reading(too big)")
+			add("CTooBig", "refused-without-reading(too big)", nil)
 			o.closed = true
 			o.reads = sconn.reads
 			return o
 		default:
 			// an error of no known class is its own observation, never a stand-in for an expected one
-			o.evs = append(o.evs, "COther")
-			o.evsHuman = append(o.evsHuman, "error of unknown class: "+err.Error())
+			add("COther", "error of unknown class: "+err.Error(), nil)
 			o.reads = sconn.reads
 			return o
 		}
@@ -236,9 +311,10 @@ func receiveRouter(segs [][]byte) (o streamObs) {
 		o.closed = false
 	case <-sconn.done:
 		o.closed = true
-	case <-time.After(60 * time.Second):
+	case <-time.After(hangDeadline()):
 		// not a reason to drop the case: what was dispatched so far is the observation
-		o.hung = "handleConn neither consumed the stream nor closed the connection within 60 s"
+		hangs++
+		o.hung = "handleConn neither consumed the stream nor closed the connection within the deadline"
 	}
 	logMu.Lock()
 	currentLog = nil
@@ -484,9 +560,10 @@ wait:
 			idleSince = time.Time{}
 		}
 		lastCount = cnt
-		if now.Sub(start) > 60*time.Second {
-			// bytes are still unread after a minute: the receiver is wedged
-			o.hung = "the receiving router left bytes unread for 60 s"
+		if now.Sub(start) > hangDeadline() {
+			// bytes are still unread after the deadline: the receiver is wedged
+			hangs++
+			o.hung = "the receiving router left bytes unread until the deadline"
 			break
 		}
 		time.Sleep(time.Millisecond)
@@ -573,9 +650,9 @@ func runStream(in *Input) lib.Case {
 	lv := "LConn"
 	switch in.Level {
 	case "conn", "router":
-		wire, sends, crash := sendCaptured(items)
+		wire, sends, crash, sendHung := sendCaptured(items)
 		var segs [][]byte
-		if crash == "" {
+		if crash == "" && sendHung == "" {
 			segs = cutSegments(wire, in.Cuts, in.Every)
 			if in.Level == "conn" {
 				o = receiveConn(segs, pl)
@@ -584,7 +661,7 @@ func runStream(in *Input) lib.Case {
 				o = receiveRouter(segs)
 			}
 		} else {
-			o.crash = crash
+			o.crash, o.hung = crash, sendHung
 		}
 		o.wire, o.sends = wire, sends
 	case "tcp":
@@ -732,7 +809,7 @@ func runDecode(in *Input) lib.Case {
 	b := buildPayload(in.Payload, &pl.ctx)
 	k := pl.add(b)
 	obsCoq, human, valeq, tyeq := "DOError", "error", true, true
-	func() {
+	returned := guarded(func() {
 		defer func() {
 			if r := recover(); r != nil {
 				obsCoq, human = "DOPanic", fmt.Sprint("panic: ", r)
@@ -754,7 +831,13 @@ func runDecode(in *Input) lib.Case {
 		if orig == nil && pl.dres[k] >= 0 && !valuesEqual(pl.vals[k], msg) {
 			valeq = false
 		}
-	}()
+	})
+	if !returned {
+		// neither a value nor an error: reported as what it is, compared as "no proper outcome"
+		return lib.Case{Coq: fmt.Sprintf("CDecode %s %d DOPanic true true", pl.coq(&chunker{fills: pl.ctx.fills}), k),
+			Class: "decode-" + in.Tag + "+hung",
+			Obs:   map[string]interface{}{"input": shortHex(b), "result": "Unmarshal did not return"}, Nontrivial: true, Key: fmt.Sprintf("d|%x|hung", b)}
+	}
 	ch := &chunker{fills: pl.ctx.fills}
 	coq := fmt.Sprintf("CDecode %s %d %s %s %s", pl.coq(ch), k, obsCoq, coqBool(valeq), coqBool(tyeq))
 	return lib.Case{Coq: coq, Class: "decode-" + in.Tag,
